@@ -694,7 +694,19 @@ func runScenario(r *vlib.Run, mode string, trial int, rng *rand.Rand) {
 			s.markVal = fmt.Sprintf("mark-%d", rng.Int63())
 			mk := &gpb.SubscribeResponse{Response: &gpb.SubscribeResponse_Update{Update: &gpb.Notification{Timestamp: tsBase + 1, Prefix: &gpb.Path{},
 				Update: []*gpb.Update{{Path: &gpb.Path{Elem: []*gpb.PathElem{{Name: "zzgate"}, {Name: "mark"}}}, Val: &gpb.TypedValue{Value: &gpb.TypedValue_StringVal{StringVal: s.markVal}}}}}}}
-			s.responses = append(s.responses[:at], append([]*gpb.SubscribeResponse{mk}, s.responses[at:]...)...)
+			// A subtree only this pair touches: written before the pause, deleted after
+			// it; a POLL client that asks for nothing else gets an EMPTY final round.
+			zz := &gpb.SubscribeResponse{Response: &gpb.SubscribeResponse_Update{Update: &gpb.Notification{Timestamp: tsBase + 2, Prefix: &gpb.Path{},
+				Update: []*gpb.Update{{Path: &gpb.Path{Elem: []*gpb.PathElem{{Name: "zzpoll"}, {Name: "a"}}}, Val: &gpb.TypedValue{Value: &gpb.TypedValue_IntVal{IntVal: 1}}},
+					{Path: &gpb.Path{Elem: []*gpb.PathElem{{Name: "zzpoll"}, {Name: "b"}}}, Val: &gpb.TypedValue{Value: &gpb.TypedValue_IntVal{IntVal: 2}}}}}}}
+			zzDel := &gpb.SubscribeResponse{Response: &gpb.SubscribeResponse_Update{Update: &gpb.Notification{Timestamp: tsBase + 3, Prefix: &gpb.Path{},
+				Delete: []*gpb.Path{{Elem: []*gpb.PathElem{{Name: "zzpoll"}}}}}}}
+			last := len(s.responses) - 1 // the sentinel stays last
+			s.responses = append(s.responses[:last], append([]*gpb.SubscribeResponse{zzDel}, s.responses[last:]...)...)
+			s.responses = append(s.responses[:at], append([]*gpb.SubscribeResponse{zz, mk}, s.responses[at:]...)...)
+			at++
+			s.mdl.ever[model.Key([]string{name, defaultOrigin, "zzpoll", "a"})] = []interface{}{int64(1)}
+			s.mdl.ever[model.Key([]string{name, defaultOrigin, "zzpoll", "b"})] = []interface{}{int64(2)}
 			s.gateAt = at + 1
 			s.gate = make(chan struct{})
 			s.mdl.set(s.markKey, s.markVal)
@@ -844,7 +856,8 @@ func runScenario(r *vlib.Run, mode string, trial int, rng *rand.Rand) {
 	deadline := time.Now().Add(90 * time.Second)
 	// pollclient mode: a client-library POLL subscriber for "*" takes one round
 	// while every target is paused behind its marker, and another one at the end.
-	var pollc *client.CacheClient
+	var pollc, pollNarrow *client.CacheClient
+	narrowMid := 0
 	pollMid := map[string]bool{}
 	if mode == "pollclient" {
 		openGates := func() {
@@ -896,6 +909,24 @@ func runScenario(r *vlib.Run, mode string, trial int, rng *rand.Rand) {
 				pollMid[model.Key(l.Path)] = true
 			}
 		}
+		// A second POLL client asks only for the first target's zzpoll subtree.
+		pollNarrow = client.New()
+		defer pollNarrow.Close()
+		err = pollNarrow.Subscribe(pctx, client.Query{Addrs: []string{sc.collAddr}, Target: sc.scripts[0].name, Queries: []client.Path{{defaultOrigin, "zzpoll"}}, Type: client.Poll, Timeout: 20 * time.Second,
+			TLS: &tls.Config{InsecureSkipVerify: true}}, gclient.Type)
+		if err == nil {
+			err = pollNarrow.Poll()
+		}
+		if err != nil {
+			openGates()
+			if pctx.Err() != nil || strings.Contains(err.Error(), "eadline") {
+				r.Inconclusive("pollclient: the POLL subscription did not complete its first rounds within 30 s (loaded machine)")
+				return
+			}
+			r.Violation(mode, trial, "subscribe-refused", fmt.Sprintf("client-library POLL subscription for %q through the collector failed: %v", sc.scripts[0].name, err), wit())
+			return
+		}
+		narrowMid = len(pollNarrow.Leaves())
 		openGates()
 	}
 	// Logical quiescence: every observer sees the nonce of every target it covers.
@@ -1142,6 +1173,22 @@ func runScenario(r *vlib.Run, mode string, trial int, rng *rand.Rand) {
 				sig = "poll-client-view-keeps-deleted-leaves"
 			}
 			r.Violation(mode, trial, sig, fmt.Sprintf("client-library POLL view of \"*\" after a round taken at quiescence differs from the targets' final state (%d leaves of an earlier round were deleted since): %s", gone, strings.Join(diffs, "; ")), wit())
+			return
+		}
+	}
+	if pollNarrow != nil {
+		if err := pollNarrow.Poll(); err != nil {
+			r.Violation(mode, trial, "subscribe-refused", fmt.Sprintf("client-library POLL round through the collector failed: %v", err), wit())
+			return
+		}
+		r.Count("poll_client_empty_final_rounds_judged", 1)
+		r.Count("poll_client_leaves_before_the_empty_round", int64(narrowMid))
+		if ls := pollNarrow.Leaves(); len(ls) != 0 {
+			var desc []string
+			for _, l := range ls {
+				desc = append(desc, fmt.Sprintf("%v=%v", []string(l.Path), l.Val))
+			}
+			r.Violation(mode, trial, "poll-client-view-keeps-deleted-leaves", fmt.Sprintf("client-library POLL view of %v on %s after a round taken at quiescence: everything the query selects was deleted (the round is a bare sync), yet the view still holds %s (it held %d leaves after the earlier round)", []string{defaultOrigin, "zzpoll"}, sc.scripts[0].name, strings.Join(desc, ", "), narrowMid), wit())
 			return
 		}
 	}
